@@ -2265,6 +2265,32 @@ fn part_c(rep: &mut Report, selftest: bool) -> (u64, u64, u64) {
     (cases.len() as u64, 3 * cases.len() as u64, effects)
 }
 
+
+/// polls a future that never has to wait (the router's async entry point only suspends for blob I/O)
+fn block_on_ready<F: std::future::Future>(f: F) -> Option<F::Output> {
+    use std::task::{Context, Poll, RawWaker, RawWakerVTable, Waker};
+    fn noop(_: *const ()) {}
+    fn clone(_: *const ()) -> RawWaker {
+        RawWaker::new(std::ptr::null(), &VTABLE)
+    }
+    static VTABLE: RawWakerVTable = RawWakerVTable::new(clone, noop, noop, noop);
+    let waker = unsafe { Waker::from_raw(RawWaker::new(std::ptr::null(), &VTABLE)) };
+    let mut cx = Context::from_waker(&waker);
+    let mut f = std::pin::pin!(f);
+    match f.as_mut().poll(&mut cx) {
+        Poll::Ready(v) => Some(v),
+        Poll::Pending => None,
+    }
+}
+/// execute one statement through the synchronous or the asynchronous text entry point
+fn exec_text(r: &QueryRouter, asynchronous: bool, text: &str) -> query_router::Result<QueryResult> {
+    if asynchronous {
+        block_on_ready(r.execute_parsed_async(text)).unwrap_or_else(|| r.execute_parsed(text))
+    } else {
+        r.execute_parsed(text)
+    }
+}
+
 /// Part C3 — the router's optional query cache must be invisible: with `init_cache()` a statement
 /// given as text still returns what the engines hold *now*. For every (write w, read q) pair of the
 /// alphabet: cached router runs q, w, q again; the reference is an uncached router that ran w, q.
@@ -2333,28 +2359,31 @@ fn part_c3(rep: &mut Report, selftest: bool) -> (u64, u64, u64) {
         r
     };
     // (kind, first statement, read, cached result, reference)
-    let mut jobs: Vec<(bool, String, String)> = vec![];
-    for w in &writes {
-        for q in &reads {
-            jobs.push((true, w.clone(), q.clone()));
+    // (write-then-read?, first statement, read, through execute_parsed_async?)
+    let mut jobs: Vec<(bool, String, String, bool)> = vec![];
+    for asynchronous in [false, true] {
+        for w in &writes {
+            for q in &reads {
+                jobs.push((true, w.clone(), q.clone(), asynchronous));
+            }
         }
     }
     for q1 in &reads {
         for q2 in &reads {
             if q1 != q2 {
-                jobs.push((false, q1.clone(), q2.clone()));
+                jobs.push((false, q1.clone(), q2.clone(), false));
             }
         }
     }
     let outs: Vec<(String, String)> = jobs
         .par_iter()
-        .map(|(is_write, first, q)| {
+        .map(|(is_write, first, q, asynchronous)| {
             let c = cached();
             if *is_write {
-                let _ = c.execute_parsed(q);
+                let _ = exec_text(&c, *asynchronous, q);
             }
-            let _ = c.execute_parsed(first);
-            let got = result_canon(&c.execute_parsed(q));
+            let _ = exec_text(&c, *asynchronous, first);
+            let got = result_canon(&exec_text(&c, *asynchronous, q));
             let p = plain();
             if *is_write {
                 let _ = p.execute_parsed(first);
@@ -2370,7 +2399,7 @@ fn part_c3(rep: &mut Report, selftest: bool) -> (u64, u64, u64) {
     let kind_of = |text: &str| -> String { np::parse(text).map(|st| format!("{:?}", st.kind).split(['(', ' ', '{']).next().unwrap_or("?").to_string()).unwrap_or_else(|_| "unparsed".into()) };
     let (mut stale, mut changed) = (0u64, 0u64);
     let mut by_sig: BTreeMap<String, u64> = BTreeMap::new();
-    for ((is_write, first, q), (got, want)) in jobs.iter().zip(&outs) {
+    for ((is_write, first, q, asynchronous), (got, want)) in jobs.iter().zip(&outs) {
         if *is_write {
             let before = {
                 // did the write change this read's answer at all? (non-vacuity count)
@@ -2380,16 +2409,16 @@ fn part_c3(rep: &mut Report, selftest: bool) -> (u64, u64, u64) {
         }
         if got != want {
             stale += 1;
-            let sig = if *is_write { format!("c15:query-cache:stale-after:{}:{}", kind_of(first), kind_of(q)) } else { "c15:query-cache:answers-a-different-statement".to_string() };
+            let sig = if *is_write { format!("c15:query-cache:stale-after:{}:{}{}", kind_of(first), kind_of(q), if *asynchronous { ":async" } else { "" }) } else { "c15:query-cache:answers-a-different-statement".to_string() };
             let n = by_sig.entry(sig.clone()).or_default();
             *n += 1;
             if *n <= 3 {
                 let msg = if *is_write { format!("router with init_cache(): {q:?}, then {first:?}, then {q:?} again -> {got}; without a cache the same statements give {want}") } else { format!("router with init_cache(): {first:?} then {q:?} -> {got}; without a cache {q:?} gives {want}") };
-                rep.violation(sig, msg, json!({"part": "C3", "with_write": is_write, "first": first, "read": q, "cached_result": got, "uncached_result": want}));
+                rep.violation(sig, msg, json!({"part": "C3", "with_write": is_write, "first": first, "read": q, "async": asynchronous, "cached_result": got, "uncached_result": want}));
             }
         }
     }
-    rep.part("C3_query_cache_invisible", json!({"reads": reads.len(), "writes": writes.len(), "write_read_pairs": writes.len() * reads.len(), "read_read_pairs": reads.len() * (reads.len() - 1), "pairs_where_the_write_changes_the_read": changed, "pairs_differing_from_uncached_router": stale, "by_signature": by_sig}));
+    rep.part("C3_query_cache_invisible", json!({"reads": reads.len(), "writes": writes.len(), "write_read_pairs": writes.len() * reads.len(), "entry_points": ["execute_parsed", "execute_parsed_async"], "read_read_pairs": reads.len() * (reads.len() - 1), "pairs_where_the_write_changes_the_read": changed, "pairs_differing_from_uncached_router": stale, "by_signature": by_sig}));
     if changed < 20 {
         rep.machinery("vacuous part C3: too few writes that change a cached read");
     }
@@ -2426,6 +2455,7 @@ fn replay_main(rep: &mut Report, path: &str) {
         }
         "C3" => {
             let (first, q, is_write) = (r["first"].as_str().unwrap_or(""), r["read"].as_str().unwrap_or(""), r["with_write"].as_bool().unwrap_or(true));
+            let asynchronous = r["async"].as_bool().unwrap_or(false);
             nvc::env::clock_freeze(1_700_000_000);
             let mut c = QueryRouter::new();
             c.init_cache();
@@ -2433,11 +2463,11 @@ fn replay_main(rep: &mut Report, path: &str) {
             let p = QueryRouter::new();
             setup(&p);
             if is_write {
-                let _ = c.execute_parsed(q);
+                let _ = exec_text(&c, asynchronous, q);
                 let _ = p.execute_parsed(first);
             }
-            let _ = c.execute_parsed(first);
-            let (got, want) = (result_canon(&c.execute_parsed(q)), result_canon(&p.execute_parsed(q)));
+            let _ = exec_text(&c, asynchronous, first);
+            let (got, want) = (result_canon(&exec_text(&c, asynchronous, q)), result_canon(&p.execute_parsed(q)));
             nvc::env::clock_unfreeze();
             eprintln!("replay C3: cached router -> {got}; uncached -> {want}");
             if got != want {
@@ -2496,7 +2526,7 @@ fn main() {
     rep.rule("A: every expression tree with <=N operator nodes over 20 binary + 4 prefix + 8 postfix operator spellings (leaves numbered, three literal kinds), and every left/right comb of depth <=8 over every ordered operator pair; each printed with minimal parentheses per the documented table and fully parenthesised, parsed by both expression parsers, AST compared with the tree; non-trivial = minimal printing needs parentheses");
     rep.rule("B: every valid UTF-8 byte string <=L under 12 lexical contexts; every token sequence <=K over the full alphabet; every sequence of fixed length over a 48-token reduced alphabet; u^n for every token, token pair and hand-listed recursive production; each through tokenize/parse/parse_all/parse_expr twice on a fixed 8 MiB stack");
     rep.rule("C: statement templates x argument grids: execute_parsed(text) on one engine set vs the direct engine call on a twin; result and post-state compared");
-    rep.rule("C3: the same with the router's query cache enabled (init_cache): every (state-changing statement w, cacheable statement q) pair over <=3 writes and <=4 reads per statement family: q, w, q on a cached router vs w, q on an uncached one; every ordered pair of reads (incl. texts differing only in the case or spacing of a string literal): q1, q2 cached vs q2 uncached");
+    rep.rule("C3: the same with the router's query cache enabled (init_cache): every (state-changing statement w, cacheable statement q) pair over <=3 writes and <=4 reads per statement family: q, w, q on a cached router (through execute_parsed and through execute_parsed_async) vs w, q on an uncached one; every ordered pair of reads (incl. texts differing only in the case or spacing of a string literal): q1, q2 cached vs q2 uncached");
     rep.assume("the documented precedence table is the one in neumann_parser/src/expr.rs:7-18 and docs/book/src/architecture/neumann-parser.md:358 (all binary operators left-associative, unary above binary, postfix above unary)");
     rep.assume("a position is 'inside the input' iff start <= end <= input length (end-of-input errors point at len)");
     rep.assume("stack exhaustion is judged on a thread with an 8 MiB stack (the largest default in use: main thread); 2 MiB (Rust/tokio thread default) thresholds are reported for information");
